@@ -39,10 +39,10 @@ def sort_by_time(x):
     if not _time_range_too_large:
         # Faster sorting:
         x = _sort_by_time_and_channel(x, channel, channel.max() + 1)
-    elif "channel" in x.dtype.names:
-        x = stable_sort(x, order=("time", "channel"))
     else:
-        x = stable_sort(x, order=("time",))
+        # Stable sort on exactly the keys time, channel (np.sort(order=...) breaks ties
+        # by the remaining fields, i.e. would reorder rows that compare equal here)
+        x = x[np.lexsort((channel, x["time"]))]
     return x
 
 
